@@ -424,11 +424,11 @@ func (b *ibuild) build(n *pnode) iterator.Iterator[int] {
 	case "chunkflat":
 		return iterator.Flatten(iterator.Map(iterator.Chunk(kid(0), n.n), func(c []int) iterator.Iterator[int] { return iterator.Slice(c) }))
 	case "runssep":
-		return &isepRuns{inner: iterator.Runs(kid(0), func(a, c int) bool { return coarseEq(n.n, a, c) })}
+		return &isepRuns{b: b, inner: iterator.Runs(kid(0), func(a, c int) bool { return coarseEq(n.n, a, c) })}
 	case "runsflat":
 		return iterator.Flatten(iterator.Runs(kid(0), func(a, c int) bool { return coarseEq(n.n, a, c) }))
 	case "runshead":
-		return &isepRuns{inner: iterator.Runs(kid(0), func(a, c int) bool { return coarseEq(n.n, a, c) }), take: n.m, limited: true}
+		return &isepRuns{b: b, inner: iterator.Runs(kid(0), func(a, c int) bool { return coarseEq(n.n, a, c) }), take: n.m, limited: true}
 	case "flatmap":
 		return iterator.Flatten(iterator.Map(kid(0), func(x int) iterator.Iterator[int] { return iterator.Slice(flatItems(x, n.n)) }))
 	case "join":
@@ -467,6 +467,8 @@ type isepRuns struct {
 	taken   int
 	calls   int
 	Runaway bool
+	ended   []iterator.Iterator[int]
+	b       *ibuild
 }
 
 func (s *isepRuns) Next() (int, bool) {
@@ -478,6 +480,13 @@ func (s *isepRuns) Next() (int, bool) {
 	for {
 		if s.cur == nil {
 			c, ok := s.inner.Next()
+			// once an inner iterator has reported its end it must keep doing so, also after the
+			// outer iterator has moved on (C07: "every later Next reports the end again")
+			for _, old := range s.ended {
+				if v, again := old.Next(); again {
+					s.b.peekViolation = fmt.Sprintf("an inner iterator of Runs yielded %d after it had reported its end", v)
+				}
+			}
 			if !ok {
 				return 0, false
 			}
@@ -490,6 +499,9 @@ func (s *isepRuns) Next() (int, bool) {
 		}
 		v, ok := s.cur.Next()
 		if !ok {
+			if len(s.ended) < 4 {
+				s.ended = append(s.ended, s.cur)
+			}
 			s.cur = nil
 			return sepRun, true
 		}
